@@ -287,3 +287,44 @@ pub fn block_hash(f: &str, b: u64) -> u64 {
     }
     h
 }
+
+/// DEPTH <n> <modules>: a region of <n> empty custom tags (type 0x1337, size 8) followed by <modules> module tags and the end
+/// tag, built here (not passed as hex). Counts what `tags()` and `module_tags()` deliver and looks a module up through the
+/// typed route: work and STACK per skipped tag must not add up (a recursive skip overflows the stack for large <n>).
+pub fn depth_case(t: &[&str]) -> String {
+    let n: usize = t[1].parse().unwrap();
+    let mods: usize = t[2].parse().unwrap();
+    let total = 8 + 8 * n + 24 * mods + 8;
+    let mut words: Vec<u64> = vec![0; total / 8];
+    let bytes = unsafe { std::slice::from_raw_parts_mut(words.as_mut_ptr() as *mut u8, total) };
+    bytes[0..4].copy_from_slice(&(total as u32).to_le_bytes());
+    let mut o = 8;
+    for _ in 0..n {
+        bytes[o..o + 4].copy_from_slice(&0x1337u32.to_le_bytes());
+        bytes[o + 4..o + 8].copy_from_slice(&8u32.to_le_bytes());
+        o += 8;
+    }
+    for k in 0..mods {
+        bytes[o..o + 4].copy_from_slice(&3u32.to_le_bytes());
+        bytes[o + 4..o + 8].copy_from_slice(&20u32.to_le_bytes());
+        bytes[o + 8..o + 12].copy_from_slice(&(0x1000u32 * (k as u32 + 1)).to_le_bytes());
+        bytes[o + 12..o + 16].copy_from_slice(&(0x1000u32 * (k as u32 + 1) + 0x800).to_le_bytes());
+        bytes[o + 16..o + 20].copy_from_slice(b"mod\0");
+        o += 24;
+    }
+    bytes[o + 4..o + 8].copy_from_slice(&8u32.to_le_bytes());
+    let p = words.as_ptr() as *const u8;
+    let r = guarded(|| {
+        let bi = unsafe { BootInformation::load(p.cast()) }.map_err(|_| ())?;
+        let tags = bi.tags().count();
+        let modules = bi.module_tags().count();
+        let first = bi.module_tags().next().map(|m| m.start_address());
+        let none = bi.command_line_tag().is_none();
+        Ok::<String, ()>(format!("tags={} modules={} first={:?} cmdline_absent={}", tags, modules, first, none))
+    });
+    match r {
+        Err(()) => "panic".into(),
+        Ok(Err(())) => "noload".into(),
+        Ok(Ok(s)) => s,
+    }
+}
